@@ -1,11 +1,11 @@
 #!/bin/bash
 # run_seeds.sh [names...]: apply each seeded change, run the quick check of its property, undo it; result in /verif/seeded/<name>/result.txt.
 # By default works on /verif and /repo themselves (do not edit either while it runs). With SEEDS_COPY=1 it works on a private copy of /verif
-# (/tmp/verif_seeds) and a scratch worktree of /repo at HEAD (/tmp/repo_seeds), removed afterwards; only result.txt files are written back.
+# (/tmp/verif_seeds$SEEDS_TAG) and a scratch worktree of /repo at HEAD (/tmp/repo_seeds$SEEDS_TAG; SEEDS_TAG lets several instances run side by side), removed afterwards; only result.txt files are written back.
 names="$@"; [ -z "$names" ] && names=$(ls /verif/seeded)
 V=/verif; R=/repo
 if [ -n "$SEEDS_COPY" ]; then
-  V=/tmp/verif_seeds; R=/tmp/repo_seeds
+  V=/tmp/verif_seeds$SEEDS_TAG; R=/tmp/repo_seeds$SEEDS_TAG
   rm -rf $V; mkdir $V; rsync -a --exclude .git --exclude replays --exclude .lock /verif/ $V/
   git -C /repo worktree remove --force $R 2>/dev/null; git -C /repo worktree add -q --detach $R HEAD || exit 1
   sed -i "s#=> /repo#=> $R#" $V/harness/go.mod
